@@ -908,7 +908,7 @@ def run(ck):
             continue
         cases.append(c)
     ncorpus = len(cases)
-    for _ in range(ck.n(600, 12000)):
+    for _ in range(ck.n(600, 6000)):
         cases.append(gen_case(rng, chained_ok))
     for _ in range(ck.n(40, 400)):
         cases.append(wide_case(rng))
@@ -926,7 +926,7 @@ def run(ck):
     # text stream
     tcases = []
     tries = 0
-    while len(tcases) < ck.n(120, 1500) and tries < 100000:
+    while len(tcases) < ck.n(120, 800) and tries < 100000:
         tries += 1
         c = gen_case(rng, chained_ok)
         if text_expressible(c):
